@@ -164,7 +164,7 @@ def run(prog, tier):
     # the KDE's cumulative function is the integral of its density (kernel sums over the same kept samples, every group of query
     # points written) - the clause C19 shares with C12, decided there
     from .common import borrow
-    shared = borrow(prog, tier, "C12", {"kernel-form", "every-group-stored", "region-tables"}, "kde-cdf-integrates-pdf",
+    shared = borrow(prog, tier, "C12", {"kernel-form", "every-group-stored", "region-tables", "region-lookup", "table-domain"}, "kde-cdf-integrates-pdf",
                     "intervals and probabilities are read through the estimator's own cdf, which must be the integral of its own density")
     obs = []
     obs.extend(shared)
@@ -348,6 +348,8 @@ def run(prog, tier):
     obs.extend(dtype_hazard_obligations(prog, "float-arithmetic", ['inference/pdf/base.py', 'inference/pdf/unimodal.py', 'inference/pdf/kde.py']))
     from .common import call_order_obligations
     obs.extend(call_order_obligations(prog, "arguments-in-order", ['inference/pdf/base.py', 'inference/pdf/unimodal.py', 'inference/pdf/kde.py']))
+    from .common import identity_memo_obligations
+    obs.extend(identity_memo_obligations(prog, "result-keyed-on-values", ['inference/pdf/base.py', 'inference/pdf/unimodal.py', 'inference/pdf/kde.py']))
 
     obs.extend(memo_obligations(prog, "cache-key", [prog.cls("GaussianKDE"), prog.cls("UnimodalPdf")]))
 
